@@ -137,7 +137,7 @@ class WarningAggregator(logging.Filter):
         self.meta_warnings = [
             MetaWarning(".", "{} warnings generated during preprocessing."),
             MetaWarning(
-                "user include",
+                r"user include( '|$)",
                 "{} user include files could not be found.\n"
                 + "  These could contain important macros and includes.\n"
                 + "  Suggested solutions:\n"
@@ -146,7 +146,7 @@ class WarningAggregator(logging.Filter):
                 + "  - Check if the include(s) should have used '<>'.",
             ),
             MetaWarning(
-                "system include",
+                r"system include( '|$)",
                 "{} system include files could not be found.\n"
                 + "  These could define important feature macros.\n"
                 + "  Suggested solutions:\n"
